@@ -65,14 +65,19 @@ def gen_locked():
     return handlers
 
 
-def kani_cmd(name, target_dir, playback=False, cbmc_args=()):
+def kani_cmd(name, target_dir, playback=False, cbmc_args=(), properties=()):
     chunk = gen.chunk_of(specmod.SPECS).get(name, "gen_k<chunk>")
     cmd = ["cargo", "kani", "-Z", "stubbing", "--no-assertion-reach-checks", "--target-dir", target_dir, "--features", chunk,
            "--exact", "--harness", f"{chunk}::{name}"]
     if playback:
         cmd += ["-Z", "concrete-playback", "--concrete-playback=print"]
-    if cbmc_args:
-        cmd += ["-Z", "unstable-options", "--cbmc-args"] + list(cbmc_args)
+    extra = list(cbmc_args)
+    for pr in properties:
+        # counterexample extraction only for the failed checks: one SAT call each on the unsliced formula
+        # instead of one per property group (measured: 70 s per call on the C09 composition harness)
+        extra += ["--property", pr]
+    if extra:
+        cmd += ["-Z", "unstable-options", "--cbmc-args"] + extra
     return cmd
 
 
@@ -188,7 +193,12 @@ def run_harness(spec, tier):
         if res["state"] == "failed" and not os.environ.get("VERIF_NO_PLAYBACK"):
             # counterexample extraction
             pb_log = os.path.join(LOGS, f"{name}.playback.log")
-            rc2, secs2, to2 = run_limited(kani_cmd(name, tdir, playback=True, cbmc_args=spec.get("cbmc_args", ())), pb_log, timeout * 2, max(spec["mem_gb"], 16))
+            failed_names = []
+            for f in res["failed"]:
+                if f["status"] == "FAILURE" and f["check"] not in failed_names and "'" not in f["check"]:
+                    failed_names.append(f["check"])
+            rc2, secs2, to2 = run_limited(kani_cmd(name, tdir, playback=True, cbmc_args=spec.get("cbmc_args", ()), properties=failed_names[:4]),
+                                          pb_log, max(timeout * 2, 3600), 48)
             res["playback"] = parse_playback(open(pb_log, errors="replace").read())
             res["playback_s"] = round(secs2, 1)
         # disk hygiene: every feature set leaves its own rmeta/goto artifacts (hundreds of MB per harness)
